@@ -526,6 +526,12 @@ def insertSorted (x : Bytes) : List Bytes → List Bytes
 /-- upstream's `setEncoder`: element encodings in ascending octet-string order -/
 def sortEncodings (l : List Bytes) : List Bytes := l.foldr insertSorted []
 
+/-- a nil `*big.Int` (a big-integer field left at its zero value) -/
+def nilBigInt (t : ATy) (v : AVal) : Bool :=
+  match t, v with
+  | .bigInt, .absent _ => true
+  | _, _ => false
+
 /-- the end of `makeField`: universal header, implicit tag, or explicit wrapper around the universal element -/
 def wrapAs (p : FP) (isCompound : Bool) (tag : Nat) (b : Bytes) : Bytes :=
   match p.tag with
@@ -555,7 +561,7 @@ def marshalShell (t : ATy) (p : FP) (v : AVal) (body : AVal → Except Err Bytes
     | _, v' =>
       let (_, tag0, isCompound) := universalType t
       -- a nil *big.Int (`makeBigInt`: "empty integer")
-      if (match t, v with | .bigInt, .absent _ => true | _, _ => false) then .error .structural else
+      if nilBigInt t v then .error .structural else
       let v := v'
       if p.timeType ≠ 0 && tag0 ≠ tagUTCTime then .error .structural
       else if p.stringType ≠ 0 && tag0 ≠ tagPrintableString then .error .structural
